@@ -115,7 +115,7 @@ def c05_process_block(report, cfg):
             if tt.f[0] != e_t0 or tt.f[1] != e_t1:
                 report.violated("R5.1", ikey, "%s::process_block: tweak update is not (t0 + n, t1 & !FIRST)" % name, graphs=(tt.f[0] + tt.f[1], e_t0 + e_t1))
             elif it.to_bits(xx, xxt) != e_x:
-                report.violated("R5.1", ikey, "%s::process_block: chaining value is not Threefish(x, (t0+n, t1), block) xor block" % name, graphs=(it.to_bits(xx, xxt), e_x))
+                report.violated("R5.1", ikey, "%s::process_block: chaining value is not Threefish(x, (t0+n, t1), block) xor block" % name, graphs=(it.to_bits(xx, xxt), e_x), boundary=(it, 1))
             else:
                 report.ok("R5.1", ikey, sample={"fn": "%s::process_block" % name, "threefish": "uninterpreted (decided under C09)"})
         engine_guard(go, report, "R5.1", ikey)
@@ -142,7 +142,7 @@ def c05_default(report, cfg):
             exp = S.initial_state(tf, nb, n)
             if it.to_bits(xx, xxt) != exp:
                 report.violated("R5.2", ikey, "%s<%d>: initial chaining value is not UBI(0, config block {SHA3 v1, %d output bits}, type CFG first+final, position 32)" % (name, n, 8 * n),
-                                graphs=(it.to_bits(xx, xxt), exp))
+                                graphs=(it.to_bits(xx, xxt), exp), boundary=(it, 1))
             elif bv.const_value(tt.f[0]) != 0 or bv.const_value(tt.f[1]) != (S.T1_FIRST | S.TYPE_MSG) or bv.const_value(pos) != 0:
                 report.violated("R5.2", ikey, "%s<%d>::default: message tweak is not (0, FIRST|MSG) or the buffer is not empty" % (name, n))
             else:
@@ -190,7 +190,7 @@ def c05_finalize(report, cfg, only=None, positions=None):
                 if i is None:
                     report.ok("R5.4", ikey, sample={"hasher": "%s<%d>" % (name, n), "buffered": p} if p in (0, nb) else None)
                 else:
-                    report.violated("R5.4", ikey, "%s<%d> finalisation with %d buffered bytes: digest byte %d differs from final-UBI + counter-mode output of Skein 1.3" % (name, n, p, i // 8), graphs=(got, exp))
+                    report.violated("R5.4", ikey, "%s<%d> finalisation with %d buffered bytes: digest byte %d differs from final-UBI + counter-mode output of Skein 1.3" % (name, n, p, i // 8), graphs=(got, exp), boundary=(it, 2))
             engine_guard(go, report, "R5.4", ikey)
     return total
 
@@ -259,7 +259,7 @@ def c05_update(report, cfg):
                         report.violated("R5.3", ikey, "%s::update: buffered bytes are not the tail of the input stream" % name, graphs=(it.to_bits(bytes2, gt)[:len(rest)], rest))
                     elif it.to_bits(xx, xxt) != ex or tt.f[0] != et0 or tt.f[1] != et1:
                         report.violated("R5.3", ikey, "%s::update: chaining value / tweak after the call differ from UBI over the complete blocks" % name,
-                                        graphs=(it.to_bits(xx, xxt) + tt.f[0] + tt.f[1], ex + et0 + et1))
+                                        graphs=(it.to_bits(xx, xxt) + tt.f[0] + tt.f[1], ex + et0 + et1), boundary=(it, 1 if off else 0))
                     else:
                         report.ok("R5.3", ikey, sample={"hasher": name, "pos": p, "len": ln} if (p, ln) == (1, 2 * nb) else None)
                 engine_guard(go, report, "R5.3", ikey)
